@@ -132,7 +132,7 @@ func checkC16(c c16Case, rec *Rec) *Violation {
 	}
 	if c.Kind == "engine" {
 		// through the engine: the document request itself is excepted
-		text := c16RuleText(c) + "\n##.generic\nexample.org##.specific\nexample.*##.wild\n"
+		text := c16RuleText(c) + "\n##.generic\nexample.org##.specific\nexample.*##.wild\n~shop.example.net,~a.com##.genericneg\n"
 		st, err := filterlist.NewRuleStorage([]filterlist.RuleList{&filterlist.StringRuleList{ID: 1, RulesText: text}})
 		if err != nil {
 			return viol(id, "C16:harness", "storage: %v", err)
@@ -161,6 +161,16 @@ func checkC16(c c16Case, rec *Rec) *Violation {
 			if g := inList(".generic", e.GetCosmeticResult(h, got).ElementHiding.Generic); g != wantG {
 				return viol(id, "C16:engine-selectors", "rule %q: option %03b: generic selector for host %q present=%v, want %v", c16RuleText(c), got, h, g, wantG)
 			}
+		}
+		// a rule that only excludes domains is generic as well
+		for _, h := range []string{"example.org", "sub.example.org", "other.example"} {
+			r := e.GetCosmeticResult(h, got).ElementHiding
+			if g := inList(".genericneg", r.Generic) || inList(".genericneg", r.Specific); g != wantG {
+				return viol(id, "C16:engine-selectors", "rule %q: option %03b: selector of the generic rule with excluded domains for host %q present=%v, want %v", c16RuleText(c), got, h, g, wantG)
+			}
+		}
+		if r := e.GetCosmeticResult("shop.example.net", rules.CosmeticOptionAll).ElementHiding; inList(".genericneg", r.Generic) || inList(".genericneg", r.Specific) {
+			return viol(id, "C16:engine-selectors", "the generic rule is applied on the domain it excludes")
 		}
 		if got == want && (hasG != wantG || hasS != wantS) {
 			return viol(id, "C16:engine-selectors", "rule %q: option %03b but generic selector present=%v (want %v), specific present=%v (want %v)",
